@@ -4,6 +4,6 @@ set -e
 ID=$1; NAME=$2; EXP=$3; shift 3
 mkdir -p /verif/mutants/$ID
 OUT=/verif/mutants/$ID/$NAME.patch
-{ echo "# seeded variant for $ID: $*"; echo "# expect: $EXP"; git -C /tmp/mw diff; } > $OUT
-git -C /tmp/mw checkout -q -- .
+{ echo "# seeded variant for $ID: $*"; echo "# expect: $EXP"; git -C /tmp/mw diff HEAD; } > $OUT
+git -C /tmp/mw reset -q --hard HEAD
 grep -c '^[-+][^-+]' $OUT
